@@ -43,6 +43,7 @@ struct Opts {
     letanchors: Vec<String>, // local names after whose `let` an `after_let NAME K` anchor is emitted
     fieldty: Vec<(String, String)>, // struct take: replace the type of a field (R4 for `dyn Fn` fields)
     structural: bool,       // struct/enum take: re-emit derive(PartialEq, Eq) as derive(Structural, PartialEq, Eq) when the original derives both
+    modfn: Vec<(String, String)>, // R24: module-qualified callee -> distinct emitted name
     optmap: bool,           // R32: `X.map(|p| IO)` in this take is Option::map
     r28: bool,              // R28: `X.and_then(|p| BODY)` with I/O in BODY -> `match X { Ok(p) => BODY, Err(e) => Err(e) }`
     mac_for: Option<(String, String)>, // macro instantiation: use the invocation whose metavariable .0 equals .1
@@ -79,6 +80,7 @@ fn parse_opts(s: &str) -> Opts {
             "anchors" => o.anchors = list(),
             "r28" => o.r28 = true,
             "optmap" => o.optmap = true,
+            "modfn" => o.modfn = v.split(';').filter_map(|kv| kv.rsplit_once(':').map(|(a, b)| (a.to_string(), b.to_string()))).collect(),
             "structural" => o.structural = true,
             "mac_for" => o.mac_for = v.split_once(':').map(|(a, b)| (a.to_string(), b.to_string())),
             "fieldty" => o.fieldty = list().iter().filter_map(|x| x.split_once(':').map(|(a, b)| (a.to_string(), b.to_string()))).collect(),
@@ -1092,12 +1094,21 @@ impl VisitMut for IdentRename {
 }
 // R24: `crate::a::b::Item` paths lose their module prefix (everything lives in one generated file);
 // `crate::Result` (libcnb's alias) becomes `CrateResult` so it cannot be confused with std's Result
-struct CratePaths { n: usize }
+struct CratePaths { n: usize, modfn: Vec<(String, String)> }
 impl VisitMut for CratePaths {
     fn visit_path_mut(&mut self, p: &mut syn::Path) {
         // `::std::..`, `::fancy_regex::..` (absolute paths used inside macro_rules bodies) resolve against the shim modules
         if p.leading_colon.is_some() { p.leading_colon = None; self.n += 1; }
         if p.leading_colon.is_none() && p.segments.len() >= 2 && (p.segments[0].ident == "crate" || p.segments[0].ident == "super") {
+            // `modfn=a::b::f:new_name`: a module-qualified item that shares its name with another extracted item keeps a distinct name
+            let full = p.segments.iter().map(|s| s.ident.to_string()).collect::<Vec<_>>().join("::");
+            if let Some((_, to)) = self.modfn.iter().find(|(k, _)| full.ends_with(k.as_str())) {
+                let mut last = p.segments.last().unwrap().clone();
+                last.ident = format_ident!("{}", to);
+                let mut np = syn::punctuated::Punctuated::new(); np.push(last); p.segments = np; self.n += 1;
+                visit_mut::visit_path_mut(self, p);
+                return;
+            }
             let mut segs: Vec<syn::PathSegment> = p.segments.iter().cloned().collect();
             segs.remove(0);
             // drop module segments (lower-case, not the last one)
@@ -1276,7 +1287,7 @@ fn emit_fn(key: &str, file: &str, mut sig: syn::Signature, mut block: syn::Block
         sr.visit_block_mut(&mut block);
     }
     {
-        let mut cp = CratePaths { n: 0 };
+        let mut cp = CratePaths { n: 0, modfn: o.modfn.clone() };
         cp.visit_signature_mut(&mut sig);
         cp.visit_block_mut(&mut block);
         for _ in 0..cp.n { rw.bump("R24"); }
@@ -1473,7 +1484,7 @@ fn emit_item(key: &str, file: &str, mut it: Item, _o: &Opts) {
         _ => {}
     }
     sd.visit_item_mut(&mut it);
-    { let mut cp = CratePaths { n: 0 }; cp.visit_item_mut(&mut it); }
+    { let mut cp = CratePaths { n: 0, modfn: _o.modfn.clone() }; cp.visit_item_mut(&mut it); }
     if let Item::Const(c) = &it {
         // exec const with a contract slot:  pub exec const N: T <contract> { EXPR }
         let (n, t, e) = (&c.ident, &c.ty, &c.expr);
